@@ -175,7 +175,7 @@ PROPS = {
         "harness": ["gwrun", "purediff"],
         "stages": [("core", stage_core, {"n_quick": 1500, "n_thorough": 20000}),
                    ("subfsm", stage_pure, {"suites": ["subfsm"], "n_quick": 4000, "n_thorough": 80000, "widen": 1}),
-                   ("gw", stage_gw, {"profiles": [("access", 600, 6000), ("scacc", 500, 4000), ("reset", 300, 3000), ("accrefs", 300, 3000)]})],
+                   ("gw", stage_gw, {"profiles": [("access", 600, 6000), ("scacc", 500, 4000), ("reset", 300, 3000), ("accrefs", 300, 3000), ("scthr1", 250, 2000), ("scdisct", 200, 1500)]})],
         "rule": "as C04 with token events on connections with and without a token, reaccess events, system resets with access patterns, triggers injected "
                 "while loading, while events are queued and while an earlier check is pending; monitor: every trigger is followed (by the next quiescent "
                 "point) by an access request with a current token for each affected direct subscription, a non-grant verdict by an unsubscribe event, and "
@@ -236,8 +236,11 @@ PROPS = {
         "level": "proof",
         "harness": ["gwrun", "purediff"],
         "stages": [("pure", stage_pure, {"suites": ["ressub", "lcs", "throttle"], "n_quick": 3000, "n_thorough": 60000}),
-                   ("gw", stage_gw, {"profiles": [("malformed", 1500, 10000), ("wild", 1000, 6000), ("churn", 600, 4000), ("query", 500, 3000)],
-                                     "monitor_props": ("C15", "C01", "C02", "C03", "C07")})],
+                   ("gw", stage_gw, {"profiles": [("malformed", 1500, 10000), ("churn", 600, 4000), ("query", 500, 3000)],
+                                     "monitor_props": ("C15", "C01", "C02", "C03", "C07")}),
+                   # unrestricted reference graphs and no trigger avoidance: process death and stalls (and the C15 monitor) only;
+                   # client divergence there belongs to the recorded collector / pending-request findings and is C01-C03's business
+                   ("gwwild", stage_gw, {"profiles": [("wild", 1000, 6000)], "monitor_props": ("C15",)})],
         "rule": "every history runs in its own gateway process: malformed client frames (bad JSON, wrong id/method/params types, ill-formed methods), "
                 "malformed or protocol-violating answers to get/access/call/auth requests, malformed and inapplicable resource events (wrong kind, bad "
                 "index, improper value, undecodable), malformed system and connection events injected at random points of otherwise valid histories "
